@@ -445,10 +445,10 @@ func c08OCI(c *Ctx) {
 			c.Evals++
 			var kind string
 			for l := range labels {
-				if !strings.HasPrefix(l, "T(call:ngo/internal/slices.Contains("+stmt+".RegistryScopes,") {
+				if !strings.HasPrefix(l, "T(call:slices.Contains("+stmt+".RegistryScopes,") {
 					continue
 				}
-				arg := strings.TrimSuffix(strings.TrimPrefix(l, "T(call:ngo/internal/slices.Contains("+stmt+".RegistryScopes,"), "))")
+				arg := strings.TrimSuffix(strings.TrimPrefix(l, "T(call:slices.Contains("+stmt+".RegistryScopes,"), "))")
 				if arg == fmt.Sprintf("const:%q", wc) {
 					kind = "wild"
 				} else if pathD != "" && arg == pathD {
